@@ -24,15 +24,18 @@ Definition key := N.
 Definition kSTART : key := 0%N.
 Definition kEND : key := 1%N.
 
-(* a state pre/post handler: the state type it was declared with and its value type *)
-Record hspec : Type := { h_state : N; h_ty : ty }.
+(* a state pre/post handler: the state type it was declared with, its value type, and what
+   it returns at run time ([None]: its argument unchanged; [Some d]: always the value d) *)
+Record hspec : Type := { h_state : N; h_ty : ty; h_ret : option dyn }.
 
 Record node : Type := {
   n_pass : bool;            (* ComponentOfPassthrough *)
   n_in : option ty;         (* cr.inputType  (nil = not yet inferred, passthrough only) *)
   n_out : option ty;        (* cr.outputType *)
   n_pre : option ty;        (* value type of the state pre handler *)
-  n_post : option ty        (* value type of the state post handler *)
+  n_post : option ty;       (* value type of the state post handler *)
+  n_pre_ret : option dyn;   (* run time: what the pre handler returns *)
+  n_post_ret : option dyn   (* run time: what the post handler returns *)
 }.
 
 Record branch : Type := {
@@ -131,7 +134,8 @@ Definition mem_pair (p : key * key) (l : list (key * key)) : bool := existsb (pa
 (* cr.inputType = cr.outputType = t (the three inference sites assign both, and the
    generic helper with them) *)
 Definition retype (t : ty) (n : node) : node :=
-  {| n_pass := n_pass n; n_in := Some t; n_out := Some t; n_pre := n_pre n; n_post := n_post n |}.
+  {| n_pass := n_pass n; n_in := Some t; n_out := Some t; n_pre := n_pre n; n_post := n_post n;
+     n_pre_ret := n_pre_ret n; n_post_ret := n_post_ret n |}.
 Fixpoint map_node (k : key) (f : node -> node) (l : list (key * node)) : list (key * node) :=
   match l with
   | [] => []
@@ -304,7 +308,9 @@ Section Builder.
     else if negb (handler_ok st o post) then (set_err st, false)
     else
       let n := {| n_pass := isp; n_in := i; n_out := o;
-                  n_pre := option_map h_ty pre; n_post := option_map h_ty post |} in
+                  n_pre := option_map h_ty pre; n_post := option_map h_ty post;
+                  n_pre_ret := match pre with Some h => h_ret h | None => None end;
+                  n_post_ret := match post with Some h => h_ret h | None => None end |} in
       (set_nodes st (g_nodes st ++ [(k, n)]), true).
 
   Definition add_edge (stale : bool) (orc : nat -> nat -> list key) (st : gstate) (s e : key) : gstate * bool :=
@@ -498,15 +504,49 @@ Section Builder.
       existsb (fun t => Nat.ltb 1 (List.length (froms t ws))) (targets ws).
 
     (* taskManager.submit / wait for the tasks of one superstep:
-       1. every state pre handler runs on the caller's goroutine (assertion failure: the panic escapes);
+       1. the state pre handler of every task runs on the caller's goroutine, one task after the
+          other: its entry assertion (failure: the panic escapes), the handler itself, and for a
+          passthrough node (whose handlers are declared for any) the conversion of the result back
+          to the node's inferred type (failure: ordinary run-time type error, repair F-C07f);
        2. every node runs under recover (assertion failure at the node entry: node error);
        3. waitAll runs the post handler of every task that has no error, again on the
-          caller's goroutine (escapes) -- before any node error is looked at;
+          caller's goroutine (assertion failure escapes; conversion failure: node error) --
+          before any node error is looked at;
        4. then the first node error ends the run. *)
-    Definition pre_ok (st : gstate) (t : key * dyn) : bool :=
+    Inductive hres : Type :=
+    | HVal (d : dyn)      (* the value handed on *)
+    | HPanic              (* the handler's entry assertion failed *)
+    | HErr.               (* the result is not of the passthrough node's type *)
+    Definition run_handler (hty : option ty) (ret : option dyn) (conv : option ty) (d : dyn) : hres :=
+      match hty with
+      | None => HVal d
+      | Some t0 =>
+          if negb (asrt d t0) then HPanic
+          else let d1 := match ret with Some r => r | None => d end in
+               match conv with
+               | Some tc => if asrt d1 tc then HVal d1 else HErr
+               | None => HVal d1
+               end
+      end.
+    Definition pre_res (st : gstate) (t : key * dyn) : hres :=
       match get_node st (fst t) with
-      | None => true
-      | Some n => match n_pre n with Some ty0 => asrt (snd t) ty0 | None => true end
+      | None => HVal (snd t)
+      | Some n => run_handler (n_pre n) (n_pre_ret n) (if n_pass n then n_in n else None) (snd t)
+      end.
+    (* the pre handlers of all tasks, in order; the first failure ends the run *)
+    Fixpoint pre_all (st : gstate) (tasks : list (key * dyn)) : outcome + list (key * dyn) :=
+      match tasks with
+      | [] => inr []
+      | t :: rest =>
+          match pre_res st t with
+          | HPanic => inl RPanicEsc
+          | HErr => inl RTypeErr
+          | HVal d =>
+              match pre_all st rest with
+              | inl o => inl o
+              | inr l => inr ((fst t, d) :: l)
+              end
+          end
       end.
     (* None: the node entry assertion failed *)
     Definition node_out (st : gstate) (t : key * dyn) : option dyn :=
@@ -519,28 +559,44 @@ Section Builder.
                | None => None
                end
       end.
-    Definition post_ok (st : gstate) (k : key) (o : option dyn) : bool :=
-      match o, get_node st k with
-      | Some d, Some n => match n_post n with Some ty0 => asrt d ty0 | None => true end
-      | _, _ => true
+    (* what one task ends with *)
+    Inductive tres : Type :=
+    | TVal (d : dyn)
+    | TNodePanic          (* recovered panic of the node entry assertion *)
+    | TTypeErr.           (* post handler result not of the passthrough node's type *)
+    (* None: the post handler's entry assertion failed (the panic escapes) *)
+    Definition post_res (st : gstate) (k : key) (o : option dyn) : option tres :=
+      match o with
+      | None => Some TNodePanic
+      | Some d =>
+          match get_node st k with
+          | None => Some (TVal d)
+          | Some n =>
+              match run_handler (n_post n) (n_post_ret n) (if n_pass n then n_out n else None) d with
+              | HVal d1 => Some (TVal d1)
+              | HPanic => None
+              | HErr => Some TTypeErr
+              end
+          end
       end.
-    Fixpoint collect_outs (tasks : list (key * dyn)) (outs : list (option dyn)) : option (list (key * dyn)) :=
+    Fixpoint collect_outs (tasks : list (key * dyn)) (outs : list (option tres)) : outcome + list (key * dyn) :=
       match tasks, outs with
-      | (k, _) :: ts, Some d :: os =>
-          match collect_outs ts os with Some l => Some ((k, d) :: l) | None => None end
-      | [], [] => Some []
-      | _, _ => None
+      | (k, _) :: ts, Some (TVal d) :: os =>
+          match collect_outs ts os with inr l => inr ((k, d) :: l) | inl o => inl o end
+      | _ :: _, Some TNodePanic :: _ => inl RPanicRec
+      | _ :: _, Some TTypeErr :: _ => inl RTypeErr
+      | [], [] => inr []
+      | _, _ => inl ROther
       end.
     Definition exec_all (st : gstate) (tasks : list (key * dyn)) : outcome + list (key * dyn) :=
       if negb (forallb (fun t => has_node st (fst t)) tasks) then inl ROther   (* createTasks: node has not been registered *)
-      else if negb (forallb (pre_ok st) tasks) then inl RPanicEsc
-      else
-        let outs := map (node_out st) tasks in
-        if negb (forallb (fun p => post_ok st (fst (fst p)) (snd p)) (combine tasks outs)) then inl RPanicEsc
-        else match collect_outs tasks outs with
-             | Some l => inr l
-             | None => inl RPanicRec
-             end.
+      else match pre_all st tasks with
+           | inl o => inl o
+           | inr tasks1 =>
+               let posts := map (fun t => post_res st (fst t) (node_out st t)) tasks1 in
+               if negb (forallb (fun r => match r with Some _ => true | None => false end) posts) then inl RPanicEsc
+               else collect_outs tasks1 posts
+           end.
 
     (* calculateNextTasks after the tasks [done] completed: either the run ends or the
        next tasks *)
